@@ -1,15 +1,1548 @@
-//! C13 — engine not implemented yet.
+//! C13 — incremental analysis equals from-scratch analysis after any edit history
+//! (core X2 without merging: the hidden state under test — the salsa memo tables and the three
+//! views of the file set inside `trust_hir::Database` — is not observable, so a state IS the
+//! history that reaches it; every history is replayed on a brand-new incremental `Database`).
+//!
+//! Alphabet
+//!   files      FileId(0..F)            F = 3 (thorough: 4)
+//!   edits      set(f, text) for every text of the menu below, remove(f)   (no-op edits — same
+//!              text again, removing an absent file — are kept: they are distinct code paths)
+//!   queries    diagnostics(f), analyze(f), file_symbols(f), type_of(f, every expr id + 2 ids
+//!              beyond), expr_id_at_offset(f, both ends of every token-like run + end + end+1)
+//!              — the whole query surface named by the property
+//!   gaps       before every edit: nothing / one single (kind,file) query / every query ("all")
+//!   final      after the last edit: [one single (kind,file) query first,] then a sweep of every
+//!              (kind,file) in a fixed order, then the same sweep again (repeat clause)
+//! The text menu (TEXTS) is built so that every text collides with the others through the names
+//! `T`, `FB` and `P`: definition / use / conflicting definition / function block that uses T and
+//! is used by P / empty / syntax error that still defines a third T / whitespace twin.
+//!
+//! Bounds: the combinations of gap choices are enumerated in named families (see `Family`),
+//! simplest first; the stage list in `run` fixes (number of edits, family, number of texts) per
+//! tier. Quick: 1 edit full product; 2 edits PlainSweep+PlainFirst+LastGap+Uniform over 7 texts;
+//! 3 edits PlainSweep+LastGap over the first 5 texts. Thorough (4 files): the same with 7 texts up
+//! to 3 edits (+UniformX at 2, +Uniform and PlainFirst at 3) and 4 edits PlainSweep (+LastGapAll
+//! over 5 texts). A wall cap stops the stage list; completed stages are reported.
+//!
+//! Oracle (differential, no hand-written expectations): the canonical rendering of every answer
+//! of the incremental database equals the rendering of the same query on a brand-new database
+//! loaded with the final contents under the same FileIds (loaded in ascending FileId order; a
+//! second one loaded in descending order must agree with the first — clause `fresh-order`; an
+//! incremental answer is accepted if it equals either). Since every prefix of an enumerated
+//! history is itself enumerated (the families are prefix-closed), "forall prefixes" is covered by
+//! checking every history at its end. Renderings never contain raw TypeId/SymbolId numbers: types
+//! are rendered by name + structure, symbols by name/kind/range/type/parent path/origin file/
+//! whether the global lookup of the name hits them, diagnostics as a sorted multiset of
+//! code/severity/range/message/related; the TypeId answered by `type_of` is named through
+//! `analyze(f).symbols` of the same database (what the consumers in trust-ide do). Repeating the
+//! sweep without an edit must give the same answers. Any panic of the subject is a violation.
+//! The expected renderings are tabulated once per contents state (hashes); a history whose hashes
+//! differ is re-executed by the detailed checker (`violations_of`, also used by --replay), which
+//! compares full strings and derives the cause-oriented signature
+//!   C13/stale/<project|file answers>/<shape of the first edit after which a sweep differs>/
+//!       <edited-file|other-file>/<cold|query-dependent>
+//!   C13/repeat/<kind>   C13/fresh-order/<kind>   C13/panic/<operation>/<message>
+//!
+//! Not demanded (the statement does not): the order of diagnostics inside the vector (compared as
+//! a multiset; order differences are only counted), `Arc` identity / cache reuse (only counted as
+//! evidence that memoised values really were reused across edits), which of two conflicting
+//! definitions wins (only that incremental and fresh agree), `source_text`, `file_ids`,
+//! `resolve_name`, `file_symbols_with_project_filtered`, `trigger_salsa_cancellation`, concurrent
+//! use of one database from several threads (C13 is about histories, not schedules).
+//! Left out of the alphabet: texts with VAR_GLOBAL/CONFIGURATION (cross-file global/task checks)
+//! — they would add two more texts per file and push 3 edits out of the quick budget.
 
 use crate::fw::*;
 use crate::iso::WorkerFn;
-use serde_json::Value;
+use crate::par::par_map;
+use serde_json::{json, Value};
+use std::collections::{BTreeSet, HashMap, HashSet};
+use std::sync::Arc;
+use std::time::{Duration, Instant};
+use trust_hir::db::{Database, FileId, SemanticDatabase, SourceDatabase};
+use trust_hir::symbols::{Symbol, SymbolId, SymbolKind, SymbolTable};
+use trust_hir::types::{Type, TypeId};
+use trust_hir::Diagnostic;
 
-pub fn run(_ctx: &Ctx) -> EngineResult {
-    machinery("engine C13 not implemented")
+// ------------------------------------------------------------------------------------------------
+// alphabet
+// ------------------------------------------------------------------------------------------------
+
+/// (label, text). Order = "simplest first" order of the enumeration.
+const TEXTS: &[(&str, &str)] = &[
+    // defines TYPE T (a struct, so that importing it interns a user type in the importer's table)
+    ("A", "TYPE T : STRUCT a : INT; END_STRUCT END_TYPE\n"),
+    // a PROGRAM that uses T and FB
+    ("P", "PROGRAM P\nVAR x : T; f : FB; END_VAR\nx.a := f.o;\nEND_PROGRAM\n"),
+    // a conflicting second definition of T (field `a` has another type)
+    ("C", "TYPE T : STRUCT a : BOOL; END_STRUCT END_TYPE\n"),
+    // a FUNCTION_BLOCK that uses T and is used by P
+    ("B", "FUNCTION_BLOCK FB\nVAR_OUTPUT o : INT; END_VAR\nVAR v : T; END_VAR\no := v.a;\nEND_FUNCTION_BLOCK\n"),
+    // empty text
+    ("0", ""),
+    // a syntax error (the field's type is missing) that still defines a third, different T
+    // (the parser recovers; note that `diagnostics` reports semantic diagnostics only)
+    ("E", "TYPE T : STRUCT a : ; END_STRUCT END_TYPE\n"),
+    // differs from A only in whitespace (every range after the first token shifts)
+    ("W", "TYPE  T : STRUCT a : INT; END_STRUCT END_TYPE\n"),
+];
+
+const KINDS: [&str; 5] = ["diagnostics", "analyze", "file_symbols", "type_of", "expr_id_at_offset"];
+const K_DIAG: usize = 0;
+const K_ANALYZE: usize = 1;
+const K_FSYM: usize = 2;
+const K_TYPEOF: usize = 3;
+const K_EXPR: usize = 4;
+/// order of one sweep inside a file (type_of before analyze so that the type_of answers are
+/// obtained before the table used to NAME them is requested)
+const SWEEP: [usize; 5] = [K_FSYM, K_EXPR, K_TYPEOF, K_DIAG, K_ANALYZE];
+
+fn kind_class(k: usize) -> &'static str {
+    // public distinction: answers that depend on the whole project vs. on the file's own text only
+    if k == K_FSYM || k == K_EXPR {
+        "file"
+    } else {
+        "project"
+    }
 }
 
-pub fn check_case(_case: &Value) -> Vec<Violation> {
-    Vec::new()
+fn fid(i: usize) -> FileId {
+    FileId(i as u32)
+}
+
+#[derive(Clone, Debug, PartialEq, Eq, Hash)]
+enum Op {
+    Set { file: usize, label: String, text: Arc<str> },
+    Remove { file: usize },
+    Query { kind: usize, file: usize },
+    All,
+}
+
+impl Op {
+    fn is_edit(&self) -> bool {
+        matches!(self, Op::Set { .. } | Op::Remove { .. })
+    }
+    fn to_json(&self) -> Value {
+        match self {
+            Op::Set { file, label, text } => json!({"op":"set","file":file,"label":label,"text":&**text}),
+            Op::Remove { file } => json!({"op":"remove","file":file}),
+            Op::Query { kind, file } => json!({"op":"query","q":KINDS[*kind],"file":file}),
+            Op::All => json!({"op":"all"}),
+        }
+    }
+    fn from_json(v: &Value) -> Option<Op> {
+        let file = v["file"].as_u64().unwrap_or(0) as usize;
+        match v["op"].as_str()? {
+            "set" => Some(Op::Set {
+                file,
+                label: v["label"].as_str().unwrap_or("?").to_string(),
+                text: Arc::from(v["text"].as_str()?),
+            }),
+            "remove" => Some(Op::Remove { file }),
+            "query" => {
+                let q = v["q"].as_str()?;
+                Some(Op::Query { kind: KINDS.iter().position(|k| *k == q)?, file })
+            }
+            "all" => Some(Op::All),
+            _ => None,
+        }
+    }
+    fn short(&self) -> String {
+        match self {
+            Op::Set { file, label, .. } => format!("set(f{file},{label})"),
+            Op::Remove { file } => format!("remove(f{file})"),
+            Op::Query { kind, file } => format!("{}(f{file})", KINDS[*kind]),
+            Op::All => "all-queries".to_string(),
+        }
+    }
+}
+
+/// One history: `ops`, then the final phase = [`first` single query,] sweep, sweep again.
+#[derive(Clone, Debug)]
+struct Case {
+    nfiles: usize,
+    ops: Vec<Op>,
+    first: Option<(usize, usize)>,
+}
+
+impl Case {
+    fn to_json(&self) -> Value {
+        json!({
+            "kind": "history",
+            "nfiles": self.nfiles,
+            "ops": self.ops.iter().map(Op::to_json).collect::<Vec<_>>(),
+            "first": self.first.map(|(k, f)| json!({"q": KINDS[k], "file": f})),
+        })
+    }
+    fn from_json(v: &Value) -> Option<Case> {
+        let nfiles = v["nfiles"].as_u64()? as usize;
+        let ops = v["ops"].as_array()?.iter().map(Op::from_json).collect::<Option<Vec<_>>>()?;
+        let first = if v["first"].is_null() {
+            None
+        } else {
+            let q = v["first"]["q"].as_str()?;
+            Some((KINDS.iter().position(|k| *k == q)?, v["first"]["file"].as_u64()? as usize))
+        };
+        Some(Case { nfiles, ops, first })
+    }
+    fn short(&self) -> String {
+        let mut s: Vec<String> = self.ops.iter().map(Op::short).collect();
+        if let Some((k, f)) = self.first {
+            s.push(format!("{}(f{f})", KINDS[k]));
+        }
+        s.push("sweep".into());
+        s.join("; ")
+    }
+}
+
+// ------------------------------------------------------------------------------------------------
+// canonical rendering (never prints a TypeId / SymbolId number)
+// ------------------------------------------------------------------------------------------------
+
+fn r(range: text_size::TextRange) -> String {
+    format!("{}..{}", u32::from(range.start()), u32::from(range.end()))
+}
+
+fn tname(t: &SymbolTable, id: TypeId) -> String {
+    match t.type_name(id) {
+        Some(n) => n.to_string(),
+        None => "<unnamed>".to_string(),
+    }
+}
+
+/// type name plus (for user types) its structure with nested types by name
+fn tdesc(t: &SymbolTable, id: TypeId, depth: usize) -> String {
+    let name = tname(t, id);
+    if depth == 0 || id.0 < TypeId::USER_TYPES_START {
+        return name;
+    }
+    let d = depth - 1;
+    let body = match t.type_by_id(id) {
+        None => "<no definition>".to_string(),
+        Some(ty) => match ty {
+            Type::Array { element, dimensions } => format!("Array({} {:?})", tdesc(t, *element, d), dimensions),
+            Type::Struct { name, fields } => format!(
+                "Struct {name} {{{}}}",
+                fields
+                    .iter()
+                    .map(|f| format!("{}:{}@{:?}", f.name, tdesc(t, f.type_id, d), f.address))
+                    .collect::<Vec<_>>()
+                    .join(",")
+            ),
+            Type::Union { name, variants } => format!(
+                "Union {name} {{{}}}",
+                variants
+                    .iter()
+                    .map(|f| format!("{}:{}@{:?}", f.name, tdesc(t, f.type_id, d), f.address))
+                    .collect::<Vec<_>>()
+                    .join(",")
+            ),
+            Type::Enum { name, base, values } => format!("Enum {name} base={} {:?}", tdesc(t, *base, d), values),
+            Type::Pointer { target } => format!("Pointer({})", tdesc(t, *target, d)),
+            Type::Reference { target } => format!("Reference({})", tdesc(t, *target, d)),
+            Type::Subrange { base, lower, upper } => format!("Subrange({} {lower}..{upper})", tdesc(t, *base, d)),
+            Type::FunctionBlock { name } => format!("FunctionBlock {name}"),
+            Type::Class { name } => format!("Class {name}"),
+            Type::Interface { name } => format!("Interface {name}"),
+            Type::Alias { name, target } => format!("Alias {name} -> {}", tdesc(t, *target, d)),
+            Type::String { max_len } => format!("String[{max_len:?}]"),
+            Type::WString { max_len } => format!("WString[{max_len:?}]"),
+            // elementary / generic kinds carry no ids
+            other => format!("{other:?}"),
+        },
+    };
+    format!("{name}={body}")
+}
+
+fn sym_name(t: &SymbolTable, id: SymbolId) -> String {
+    match t.get(id) {
+        Some(s) => s.name.to_string(),
+        None => "?".to_string(),
+    }
+}
+
+fn parent_path(t: &SymbolTable, s: &Symbol) -> String {
+    let mut parts = Vec::new();
+    let mut cur = s.parent;
+    let mut guard = 0;
+    while let Some(p) = cur {
+        guard += 1;
+        if guard > 16 {
+            parts.push("...".to_string());
+            break;
+        }
+        match t.get(p) {
+            Some(ps) => {
+                parts.push(ps.name.to_string());
+                cur = ps.parent;
+            }
+            None => {
+                parts.push("?".to_string());
+                break;
+            }
+        }
+    }
+    parts.reverse();
+    parts.join(".")
+}
+
+fn kind_str(t: &SymbolTable, k: &SymbolKind) -> String {
+    match k {
+        SymbolKind::Function { return_type, parameters } => format!(
+            "Function(ret={}; params=[{}])",
+            tdesc(t, *return_type, 1),
+            parameters.iter().map(|p| sym_name(t, *p)).collect::<Vec<_>>().join(",")
+        ),
+        SymbolKind::Method { return_type, parameters } => format!(
+            "Method(ret={}; params=[{}])",
+            return_type.map(|x| tdesc(t, x, 1)).unwrap_or_else(|| "-".into()),
+            parameters.iter().map(|p| sym_name(t, *p)).collect::<Vec<_>>().join(",")
+        ),
+        SymbolKind::Property { prop_type, has_get, has_set } => {
+            format!("Property({} get={has_get} set={has_set})", tdesc(t, *prop_type, 1))
+        }
+        // the remaining kinds carry no ids
+        other => format!("{other:?}"),
+    }
+}
+
+struct Builtins {
+    table: SymbolTable,
+    n: u32,
+}
+
+fn builtins() -> &'static Builtins {
+    static B: std::sync::OnceLock<Builtins> = std::sync::OnceLock::new();
+    B.get_or_init(|| {
+        let table = SymbolTable::new();
+        let n = table.len() as u32;
+        Builtins { table, n }
+    })
+}
+
+/// Sorted lines, one per non-builtin symbol. The built-in function blocks (identical in every
+/// table: same slot, equal `Symbol`) are skipped; their number is rendered instead.
+fn render_symbols(t: &SymbolTable) -> Vec<String> {
+    let b = builtins();
+    let mut lines = Vec::new();
+    let mut skipped = 0usize;
+    for s in t.iter() {
+        if s.id.0 < b.n && b.table.get(s.id) == Some(s) {
+            skipped += 1;
+            continue;
+        }
+        let wins = t.lookup(s.name.as_str()) == Some(s.id);
+        lines.push(format!(
+            "sym {}|{}|{}|ty={}|at={:?}|{:?}|final={} abstract={} override={}|origin={}|parent={}|extends={:?}|implements={:?}|doc={:?}|global-lookup-hits={}",
+            s.name,
+            kind_str(t, &s.kind),
+            r(s.range),
+            tdesc(t, s.type_id, 2),
+            s.direct_address,
+            s.visibility,
+            s.modifiers.is_final,
+            s.modifiers.is_abstract,
+            s.modifiers.is_override,
+            s.origin.map(|o| format!("f{}", o.file_id.0)).unwrap_or_else(|| "-".into()),
+            parent_path(t, s),
+            t.extends_name(s.id),
+            t.implements_names(s.id),
+            s.doc,
+            wins,
+        ));
+    }
+    lines.sort();
+    lines.push(format!("builtin symbols unchanged: {skipped}"));
+    lines
+}
+
+fn render_diags(d: &[Diagnostic]) -> Vec<String> {
+    let mut lines: Vec<String> = d
+        .iter()
+        .map(|x| {
+            let mut rel: Vec<String> = x.related.iter().map(|ri| format!("{}:{}", r(ri.range), ri.message)).collect();
+            rel.sort();
+            format!("diag {}|{:?}|{}|{}|related=[{}]", x.code.code(), x.severity, r(x.range), x.message, rel.join(";"))
+        })
+        .collect();
+    lines.sort();
+    lines
+}
+
+fn diag_order_key(d: &[Diagnostic]) -> Vec<String> {
+    d.iter().map(|x| format!("{}|{}|{}", x.code.code(), r(x.range), x.message)).collect()
+}
+
+/// raw answer of one (kind,file) query
+#[derive(Clone)]
+enum Raw {
+    Diags(Arc<Vec<Diagnostic>>),
+    Analysis(Arc<SymbolTable>, Arc<Vec<Diagnostic>>),
+    Symbols(Arc<SymbolTable>),
+    Types(Vec<TypeId>),
+    Exprs(Vec<(u32, Option<u32>)>),
+}
+
+impl Raw {
+    /// raw equality (used only as a shortcut for the repeat clause; a raw difference is re-checked
+    /// on the canonical rendering)
+    fn same(&self, o: &Raw) -> bool {
+        match (self, o) {
+            (Raw::Diags(a), Raw::Diags(b)) => a == b,
+            (Raw::Analysis(a, c), Raw::Analysis(b, d)) => a == b && c == d,
+            (Raw::Symbols(a), Raw::Symbols(b)) => a == b,
+            (Raw::Types(a), Raw::Types(b)) => a == b,
+            (Raw::Exprs(a), Raw::Exprs(b)) => a == b,
+            _ => false,
+        }
+    }
+    /// identity of the memoised value, if the answer is a shared allocation
+    fn ptr(&self) -> Option<usize> {
+        match self {
+            Raw::Diags(a) => Some(Arc::as_ptr(a) as usize),
+            Raw::Analysis(a, _) => Some(Arc::as_ptr(a) as *const u8 as usize),
+            Raw::Symbols(a) => Some(Arc::as_ptr(a) as *const u8 as usize),
+            _ => None,
+        }
+    }
+}
+
+/// Offsets probed by `expr_id_at_offset`: the first and last byte of every run of identifier
+/// characters / of every run of other non-blank characters, plus the end of the text and one
+/// past it (derived from the text alone).
+fn probe_offsets(text: &str) -> Vec<u32> {
+    let b = text.as_bytes();
+    let class = |c: u8| {
+        if c.is_ascii_alphanumeric() || c == b'_' {
+            1
+        } else if c.is_ascii_whitespace() {
+            0
+        } else {
+            2
+        }
+    };
+    let mut out = Vec::new();
+    for i in 0..b.len() {
+        let c = class(b[i]);
+        let starts = i == 0 || class(b[i - 1]) != c;
+        let ends = i + 1 == b.len() || class(b[i + 1]) != c;
+        if (starts || ends) && (c != 0 || starts) {
+            out.push(i as u32);
+        }
+    }
+    out.push(b.len() as u32);
+    out.push(b.len() as u32 + 1);
+    out
+}
+
+/// number of expression ids asked for a text: every id reachable through an offset, plus two
+/// beyond (out-of-range ids must answer, not panic). Computed on a private single-file database.
+fn expr_budget(text: &str) -> u32 {
+    let mut db = Database::new();
+    db.set_source_text(FileId(0), text.to_string());
+    let mut max: Option<u32> = None;
+    for off in 0..=text.len() as u32 + 1 {
+        // (every offset here, once per text: the id range must not depend on the probe subset)
+        if let Some(id) = db.expr_id_at_offset(FileId(0), off) {
+            max = Some(max.map_or(id, |m| m.max(id)));
+        }
+    }
+    max.map_or(0, |m| m + 1) + 2
+}
+
+struct Budgets {
+    map: HashMap<Arc<str>, u32>,
+}
+
+impl Budgets {
+    fn of(&self, text: &str) -> u32 {
+        self.map.get(text).copied().unwrap_or(2)
+    }
+    fn for_ops(ops: &[Op]) -> Result<Budgets, String> {
+        let mut map = HashMap::new();
+        for op in ops {
+            if let Op::Set { text, .. } = op {
+                if !map.contains_key(text) {
+                    let t = text.clone();
+                    let n = catch(|| expr_budget(&t)).map_err(|m| format!("expr_budget: {m}"))?;
+                    map.insert(text.clone(), n);
+                }
+            }
+        }
+        Ok(Budgets { map })
+    }
+}
+
+/// Asks one (kind,file) question. `text` = current content of the file (None = absent).
+fn ask(db: &Database, kind: usize, file: usize, text: Option<&str>, budgets: &Budgets) -> Result<Raw, String> {
+    let f = fid(file);
+    catch(|| match kind {
+        K_DIAG => Raw::Diags(db.diagnostics(f)),
+        K_ANALYZE => {
+            let a = db.analyze(f);
+            Raw::Analysis(a.symbols.clone(), a.diagnostics.clone())
+        }
+        K_FSYM => Raw::Symbols(db.file_symbols(f)),
+        K_TYPEOF => {
+            let n = text.map_or(2, |t| budgets.of(t));
+            Raw::Types((0..n).map(|id| db.type_of(f, id)).collect())
+        }
+        _ => {
+            Raw::Exprs(probe_offsets(text.unwrap_or("")).into_iter().map(|off| (off, db.expr_id_at_offset(f, off))).collect())
+        }
+    })
+}
+
+/// Canonical lines of an answer. `names` = the project-augmented symbol table of the same file in
+/// the same database (what every consumer of `type_of` uses to turn the TypeId into a name).
+fn render(raw: &Raw, names: &SymbolTable) -> Vec<String> {
+    match raw {
+        Raw::Diags(d) => render_diags(d),
+        Raw::Analysis(s, d) => {
+            let mut l = render_symbols(s);
+            l.extend(render_diags(d));
+            l
+        }
+        Raw::Symbols(s) => render_symbols(s),
+        Raw::Types(v) => v.iter().enumerate().map(|(i, t)| format!("expr#{i} : {}", tdesc(names, *t, 2))).collect(),
+        Raw::Exprs(v) => {
+            v.iter().map(|(off, id)| format!("offset {off} -> {id:?}")).collect()
+        }
+    }
+}
+
+fn hash_lines(l: &[String]) -> u64 {
+    let mut h: u64 = 0xcbf29ce484222325;
+    for s in l {
+        for b in s.bytes() {
+            h ^= b as u64;
+            h = h.wrapping_mul(0x100000001b3);
+        }
+        h ^= 0xff;
+        h = h.wrapping_mul(0x100000001b3);
+    }
+    h
+}
+
+/// All answers of one database for the given contents: lines[file][kind].
+struct Obs {
+    lines: Vec<Vec<Vec<String>>>,
+    raws: Vec<Vec<Raw>>,
+    diag_order: Vec<Vec<String>>,
+}
+
+#[derive(Debug, Clone)]
+struct Fail {
+    clause: &'static str,
+    /// where: op description
+    at: String,
+    detail: String,
+}
+
+fn sweep(db: &Database, nfiles: usize, cur: &[Option<Arc<str>>], budgets: &Budgets) -> Result<Obs, Fail> {
+    let mut raws: Vec<Vec<Option<Raw>>> = vec![vec![None; 5]; nfiles];
+    for file in 0..nfiles {
+        for &k in &SWEEP {
+            let raw = ask(db, k, file, cur[file].as_deref(), budgets).map_err(|m| Fail {
+                clause: "panic",
+                at: format!("query:{}", KINDS[k]),
+                detail: m,
+            })?;
+            raws[file][k] = Some(raw);
+        }
+    }
+    let raws: Vec<Vec<Raw>> = raws.into_iter().map(|v| v.into_iter().map(Option::unwrap).collect()).collect();
+    let mut lines = Vec::with_capacity(nfiles);
+    let mut diag_order = Vec::with_capacity(nfiles);
+    for file in 0..nfiles {
+        let Raw::Analysis(names, _) = &raws[file][K_ANALYZE] else { unreachable!() };
+        let names = names.clone();
+        let l = catch(|| (0..5).map(|k| render(&raws[file][k], &names)).collect::<Vec<_>>()).map_err(|m| Fail {
+            clause: "panic",
+            at: "render".into(),
+            detail: m,
+        })?;
+        lines.push(l);
+        let Raw::Diags(d) = &raws[file][K_DIAG] else { unreachable!() };
+        diag_order.push(diag_order_key(d));
+    }
+    Ok(Obs { lines, raws, diag_order })
+}
+
+fn fresh_db(nfiles: usize, cur: &[Option<Arc<str>>], descending: bool) -> Result<Database, Fail> {
+    catch(|| {
+        let mut db = Database::new();
+        let order: Vec<usize> = if descending { (0..nfiles).rev().collect() } else { (0..nfiles).collect() };
+        for f in order {
+            if let Some(t) = &cur[f] {
+                db.set_source_text(fid(f), t.to_string());
+            }
+        }
+        db
+    })
+    .map_err(|m| Fail { clause: "panic", at: "fresh:set".into(), detail: m })
+}
+
+// ------------------------------------------------------------------------------------------------
+// executing one history on an incremental database
+// ------------------------------------------------------------------------------------------------
+
+#[derive(Default, Clone)]
+struct Counters {
+    ops: u64,
+    /// memoised allocation returned again by the second sweep
+    reuse_repeat: u64,
+    /// allocation obtained in an earlier gap returned again after at least one later edit
+    reuse_across_edit: u64,
+    /// same multiset of diagnostics as the fresh database but in another order (not demanded)
+    diag_order_diffs: u64,
+}
+
+struct Run {
+    obs: Obs,
+    /// rendering of the `first` query (rendered with the names table of the sweep)
+    first_lines: Option<Vec<String>>,
+    /// (kind,file) whose second answer differed from the first
+    repeat_diffs: Vec<(usize, usize, String)>,
+    cur: Vec<Option<Arc<str>>>,
+    cnt: Counters,
+}
+
+fn apply_edit(db: &mut Database, op: &Op, cur: &mut [Option<Arc<str>>]) -> Result<(), Fail> {
+    match op {
+        Op::Set { file, text, .. } => {
+            let t = text.to_string();
+            let f = fid(*file);
+            catch(std::panic::AssertUnwindSafe(|| db.set_source_text(f, t)))
+                .map_err(|m| Fail { clause: "panic", at: "set".into(), detail: m })?;
+            cur[*file] = Some(text.clone());
+        }
+        Op::Remove { file } => {
+            let f = fid(*file);
+            catch(std::panic::AssertUnwindSafe(|| db.remove_source_text(f)))
+                .map_err(|m| Fail { clause: "panic", at: "remove".into(), detail: m })?;
+            cur[*file] = None;
+        }
+        _ => {}
+    }
+    Ok(())
+}
+
+fn run_case(case: &Case, budgets: &Budgets) -> Result<Run, Fail> {
+    let n = case.nfiles;
+    let mut db = catch(Database::new).map_err(|m| Fail { clause: "panic", at: "new".into(), detail: m })?;
+    let mut cur: Vec<Option<Arc<str>>> = vec![None; n];
+    let mut cnt = Counters::default();
+    // allocations seen in earlier gaps: (kind,file) -> (ptr, number of edits applied when seen)
+    let mut held: Vec<(usize, usize, Raw, u32)> = Vec::new();
+    let mut edits = 0u32;
+    for op in &case.ops {
+        cnt.ops += 1;
+        match op {
+            Op::Set { .. } | Op::Remove { .. } => {
+                apply_edit(&mut db, op, &mut cur)?;
+                edits += 1;
+            }
+            Op::Query { kind, file } => {
+                let raw = ask(&db, *kind, *file, cur[*file].as_deref(), budgets).map_err(|m| Fail {
+                    clause: "panic",
+                    at: format!("query:{}", KINDS[*kind]),
+                    detail: m,
+                })?;
+                held.push((*kind, *file, raw, edits));
+            }
+            Op::All => {
+                for file in 0..n {
+                    for &k in &SWEEP {
+                        cnt.ops += 1;
+                        let raw = ask(&db, k, file, cur[file].as_deref(), budgets).map_err(|m| Fail {
+                            clause: "panic",
+                            at: format!("query:{}", KINDS[k]),
+                            detail: m,
+                        })?;
+                        held.push((k, file, raw, edits));
+                    }
+                }
+            }
+        }
+    }
+    // final phase
+    let first_raw = match case.first {
+        Some((k, f)) => {
+            cnt.ops += 1;
+            Some(ask(&db, k, f, cur[f].as_deref(), budgets).map_err(|m| Fail {
+                clause: "panic",
+                at: format!("query:{}", KINDS[k]),
+                detail: m,
+            })?)
+        }
+        None => None,
+    };
+    let obs = sweep(&db, n, &cur, budgets)?;
+    cnt.ops += (5 * n) as u64;
+    let first_lines = match (&first_raw, case.first) {
+        (Some(raw), Some((_, f))) => {
+            let Raw::Analysis(names, _) = &obs.raws[f][K_ANALYZE] else { unreachable!() };
+            Some(render(raw, names))
+        }
+        _ => None,
+    };
+    // repeat clause: the same sweep again, no edit in between
+    let mut repeat_diffs = Vec::new();
+    for file in 0..n {
+        for &k in &SWEEP {
+            cnt.ops += 1;
+            let again = ask(&db, k, file, cur[file].as_deref(), budgets).map_err(|m| Fail {
+                clause: "panic",
+                at: format!("query:{}", KINDS[k]),
+                detail: m,
+            })?;
+            let firstr = &obs.raws[file][k];
+            if let (Some(a), Some(b)) = (firstr.ptr(), again.ptr()) {
+                if a == b {
+                    cnt.reuse_repeat += 1;
+                }
+            }
+            if !firstr.same(&again) {
+                let names2 = match ask(&db, K_ANALYZE, file, cur[file].as_deref(), budgets) {
+                    Ok(Raw::Analysis(nm, _)) => nm,
+                    _ => Arc::new(SymbolTable::new()),
+                };
+                let l2 = render(&again, &names2);
+                if l2 != obs.lines[file][k] {
+                    repeat_diffs.push((k, file, diff_lines(&obs.lines[file][k], &l2, "first answer", "second answer")));
+                }
+            }
+        }
+    }
+    for (k, f, raw, at_edit) in &held {
+        if *at_edit < edits {
+            if let (Some(a), Some(b)) = (raw.ptr(), obs.raws[*f][*k].ptr()) {
+                if a == b {
+                    cnt.reuse_across_edit += 1;
+                }
+            }
+        }
+    }
+    Ok(Run { obs, first_lines, repeat_diffs, cur, cnt })
+}
+
+fn clip(s: &str, n: usize) -> String {
+    let mut out: String = s.chars().take(n).collect();
+    if s.chars().count() > n {
+        out.push('…');
+    }
+    out
+}
+
+fn diff_lines(a: &[String], b: &[String], an: &str, bn: &str) -> String {
+    let sa: BTreeSet<&String> = a.iter().collect();
+    let sb: BTreeSet<&String> = b.iter().collect();
+    let only_a: Vec<String> = sa.difference(&sb).take(2).map(|s| clip(s, 260)).collect();
+    let only_b: Vec<String> = sb.difference(&sa).take(2).map(|s| clip(s, 260)).collect();
+    if only_a.is_empty() && only_b.is_empty() {
+        return format!("same lines, different multiplicity/order ({} vs {} lines)", a.len(), b.len());
+    }
+    format!("only in {an}: {only_a:?}; only in {bn}: {only_b:?}")
+}
+
+fn norm_msg(m: &str) -> String {
+    let s: String = m.chars().map(|c| if c.is_ascii_digit() { '#' } else { c }).collect();
+    clip(&s, 80)
+}
+
+// ------------------------------------------------------------------------------------------------
+// expected answers (fresh databases), tabulated per contents state for the explorer
+// ------------------------------------------------------------------------------------------------
+
+/// hashes[file][kind] of a fresh database loaded ascending / descending
+#[derive(Clone)]
+struct Expect {
+    asc: Vec<[u64; 5]>,
+    desc: Vec<[u64; 5]>,
+    diag_order_asc: Vec<u64>,
+}
+
+fn state_code(cur: &[Option<usize>], nv: usize) -> usize {
+    let mut c = 0;
+    for v in cur {
+        c = c * (nv + 1) + v.map_or(0, |x| x + 1);
+    }
+    c
+}
+
+fn state_decode(mut code: usize, nfiles: usize, nv: usize) -> Vec<Option<usize>> {
+    let mut out = vec![None; nfiles];
+    for i in (0..nfiles).rev() {
+        let d = code % (nv + 1);
+        code /= nv + 1;
+        out[i] = if d == 0 { None } else { Some(d - 1) };
+    }
+    out
+}
+
+struct Menu {
+    nfiles: usize,
+    texts: Vec<(String, Arc<str>)>,
+    budgets: Budgets,
+}
+
+impl Menu {
+    fn new(nfiles: usize, nv: usize) -> Result<Menu, String> {
+        let texts: Vec<(String, Arc<str>)> = TEXTS[..nv].iter().map(|(l, t)| (l.to_string(), Arc::from(*t))).collect();
+        let ops: Vec<Op> = texts
+            .iter()
+            .map(|(l, t)| Op::Set { file: 0, label: l.clone(), text: t.clone() })
+            .collect();
+        let budgets = Budgets::for_ops(&ops)?;
+        Ok(Menu { nfiles, texts, budgets })
+    }
+    fn contents(&self, st: &[Option<usize>]) -> Vec<Option<Arc<str>>> {
+        st.iter().map(|v| v.map(|i| self.texts[i].1.clone())).collect()
+    }
+    /// edit alphabet in enumeration order
+    fn edits(&self) -> Vec<Op> {
+        let mut v = Vec::new();
+        for f in 0..self.nfiles {
+            for (l, t) in &self.texts {
+                v.push(Op::Set { file: f, label: l.clone(), text: t.clone() });
+            }
+            v.push(Op::Remove { file: f });
+        }
+        v
+    }
+    /// single-query alphabet in enumeration order
+    fn singles(&self) -> Vec<(usize, usize)> {
+        let mut v = Vec::new();
+        for f in 0..self.nfiles {
+            for k in 0..5 {
+                v.push((k, f));
+            }
+        }
+        v
+    }
+}
+
+fn fresh_obs(nfiles: usize, cur: &[Option<Arc<str>>], budgets: &Budgets, descending: bool) -> Result<Obs, Fail> {
+    let db = fresh_db(nfiles, cur, descending)?;
+    sweep(&db, nfiles, cur, budgets)
+}
+
+fn hashes(o: &Obs) -> Vec<[u64; 5]> {
+    o.lines
+        .iter()
+        .map(|per_kind| {
+            let mut h = [0u64; 5];
+            for k in 0..5 {
+                h[k] = hash_lines(&per_kind[k]);
+            }
+            h
+        })
+        .collect()
+}
+
+// ------------------------------------------------------------------------------------------------
+// violations (slow path: full strings, culprit analysis for the signature)
+// ------------------------------------------------------------------------------------------------
+
+/// Outcome of the detailed check of one case: list of (kind,file,diff) that are stale.
+struct Detailed {
+    stale: Vec<(usize, usize, String)>,
+    repeat: Vec<(usize, usize, String)>,
+    fresh_order: Vec<(usize, usize, String)>,
+    fail: Option<Fail>,
+    cur: Vec<Option<Arc<str>>>,
+}
+
+fn detailed(case: &Case, budgets: &Budgets) -> Detailed {
+    let mut d = Detailed { stale: vec![], repeat: vec![], fresh_order: vec![], fail: None, cur: vec![] };
+    let run = match run_case(case, budgets) {
+        Ok(r) => r,
+        Err(f) => {
+            d.fail = Some(f);
+            return d;
+        }
+    };
+    d.cur = run.cur.clone();
+    d.repeat = run.repeat_diffs.clone();
+    if std::env::var_os("TV_C13_DUMP").is_some() {
+        // debugging aid for replays: the canonical rendering of every final answer
+        for (f, per_kind) in run.obs.lines.iter().enumerate() {
+            for (k, lines) in per_kind.iter().enumerate() {
+                eprintln!("--- incremental {}(f{f})", KINDS[k]);
+                for l in lines {
+                    eprintln!("    {l}");
+                }
+            }
+        }
+    }
+    let asc = match fresh_obs(case.nfiles, &run.cur, budgets, false) {
+        Ok(o) => o,
+        Err(f) => {
+            d.fail = Some(f);
+            return d;
+        }
+    };
+    let desc = match fresh_obs(case.nfiles, &run.cur, budgets, true) {
+        Ok(o) => o,
+        Err(f) => {
+            d.fail = Some(f);
+            return d;
+        }
+    };
+    for file in 0..case.nfiles {
+        for &k in &SWEEP {
+            if asc.lines[file][k] != desc.lines[file][k] {
+                d.fresh_order.push((k, file, diff_lines(&asc.lines[file][k], &desc.lines[file][k], "fresh(ascending load)", "fresh(descending load)")));
+            }
+            let inc = &run.obs.lines[file][k];
+            if inc != &asc.lines[file][k] && inc != &desc.lines[file][k] {
+                d.stale.push((k, file, diff_lines(inc, &asc.lines[file][k], "incremental", "fresh")));
+            }
+        }
+    }
+    if let (Some(fl), Some((k, f))) = (&run.first_lines, case.first) {
+        if fl != &asc.lines[f][k] && fl != &desc.lines[f][k] && !d.stale.iter().any(|(kk, ff, _)| *kk == k && *ff == f) {
+            d.stale.insert(0, (k, f, format!("(first query after the last edit) {}", diff_lines(fl, &asc.lines[f][k], "incremental", "fresh"))));
+        }
+        if fl != &run.obs.lines[f][k] {
+            d.repeat.push((k, f, diff_lines(fl, &run.obs.lines[f][k], "first answer", "answer in the following sweep")));
+        }
+    }
+    d
+}
+
+fn edit_shape(ops: &[Op], idx: usize) -> &'static str {
+    // shape of edit ops[idx] relative to the contents before it
+    let mut cur: HashMap<usize, Arc<str>> = HashMap::new();
+    let mut ever: HashSet<usize> = HashSet::new();
+    for op in &ops[..idx] {
+        match op {
+            Op::Set { file, text, .. } => {
+                cur.insert(*file, text.clone());
+                ever.insert(*file);
+            }
+            Op::Remove { file } => {
+                cur.remove(file);
+            }
+            _ => {}
+        }
+    }
+    match &ops[idx] {
+        Op::Set { file, text, .. } => match cur.get(file) {
+            Some(old) if old == text => "set-same",
+            Some(_) => "set-change",
+            None if ever.contains(file) => "set-readd",
+            None => "set-add",
+        },
+        Op::Remove { file } => {
+            if cur.contains_key(file) {
+                "remove"
+            } else {
+                "remove-absent"
+            }
+        }
+        _ => "query",
+    }
+}
+
+fn edited_file(op: &Op) -> Option<usize> {
+    match op {
+        Op::Set { file, .. } | Op::Remove { file } => Some(*file),
+        _ => None,
+    }
+}
+
+fn set_join(mut v: Vec<&'static str>) -> String {
+    v.sort();
+    v.dedup();
+    v.join("+")
+}
+
+/// Full check of one case; returns the violations with cause-oriented signatures.
+fn violations_of(case: &Case) -> Vec<Violation> {
+    let budgets = match Budgets::for_ops(&case.ops) {
+        Ok(b) => b,
+        Err(m) => {
+            return vec![Violation {
+                signature: format!("C13/panic/expr_id_at_offset/{}", norm_msg(&m)),
+                what: format!("panic while probing a single-file database: {m}"),
+                case: case.to_json(),
+            }]
+        }
+    };
+    let d = detailed(case, &budgets);
+    let mut out = Vec::new();
+    if let Some(f) = &d.fail {
+        out.push(Violation {
+            signature: format!("C13/{}/{}/{}", f.clause, f.at, norm_msg(&f.detail)),
+            what: format!("{} during {} in history [{}]: {}", f.clause, f.at, case.short(), clip(&f.detail, 300)),
+            case: case.to_json(),
+        });
+        return out;
+    }
+    for (k, f, diff) in &d.fresh_order {
+        out.push(Violation {
+            signature: format!("C13/fresh-order/{}", KINDS[*k]),
+            what: format!(
+                "two brand-new databases with the same contents {} disagree on {}(f{f}) depending on load order: {diff}",
+                contents_short(&d.cur),
+                KINDS[*k]
+            ),
+            case: json!({"kind":"fresh","nfiles":case.nfiles,"contents": d.cur.iter().map(|c| c.as_deref()).collect::<Vec<_>>()}),
+        });
+    }
+    for (k, f, diff) in &d.repeat {
+        out.push(Violation {
+            signature: format!("C13/repeat/{}", KINDS[*k]),
+            what: format!("{}(f{f}) repeated without an edit gave another answer after [{}]: {diff}", KINDS[*k], case.short()),
+            case: case.to_json(),
+        });
+    }
+    if !d.stale.is_empty() {
+        // culprit analysis: shortest prefix (cut after an edit) whose immediate sweep already differs
+        let edit_idx: Vec<usize> = case.ops.iter().enumerate().filter(|(_, o)| o.is_edit()).map(|(i, _)| i).collect();
+        let mut culprit = edit_idx.last().copied();
+        let mut at_culprit: Vec<(usize, usize)> = d.stale.iter().map(|(k, f, _)| (*k, *f)).collect();
+        for &ei in &edit_idx {
+            let prefix = Case { nfiles: case.nfiles, ops: case.ops[..=ei].to_vec(), first: None };
+            let pd = detailed(&prefix, &budgets);
+            if !pd.stale.is_empty() {
+                culprit = Some(ei);
+                at_culprit = pd.stale.iter().map(|(k, f, _)| (*k, *f)).collect();
+                break;
+            }
+        }
+        // query dependence: same edits, no query before the final sweep (fixed order). "cold" = the
+        // edits alone suffice; "query-dependent" = it takes a query at a particular place (something
+        // memoised before an edit, or a particular first query after it)
+        let cold_case = Case {
+            nfiles: case.nfiles,
+            ops: case.ops.iter().filter(|o| o.is_edit()).cloned().collect(),
+            first: None,
+        };
+        let cold = !detailed(&cold_case, &budgets).stale.is_empty();
+        let (shape, efile) = match culprit {
+            Some(ci) => (edit_shape(&case.ops, ci), edited_file(&case.ops[ci])),
+            None => ("no-edit", None),
+        };
+        let classes = set_join(at_culprit.iter().map(|(k, _)| kind_class(*k)).collect());
+        let targets = set_join(
+            at_culprit
+                .iter()
+                .map(|(_, f)| if Some(*f) == efile { "edited-file" } else { "other-file" })
+                .collect(),
+        );
+        let (k, f, diff) = &d.stale[0];
+        out.push(Violation {
+            signature: format!("C13/stale/{classes}/{shape}/{targets}/{}", if cold { "cold" } else { "query-dependent" }),
+            what: format!(
+                "after [{}] the incremental database answers {}(f{f}) differently from a brand-new database with the same contents {}: {diff}. First observable after edit #{} ({}); {} of {} (kind,file) answers differ at the end.",
+                case.short(),
+                KINDS[*k],
+                contents_short(&d.cur),
+                culprit.map_or(0, |c| case.ops[..=c].iter().filter(|o| o.is_edit()).count()),
+                culprit.map_or("-".to_string(), |c| case.ops[c].short()),
+                d.stale.len(),
+                5 * case.nfiles,
+            ),
+            case: case.to_json(),
+        });
+    }
+    out
+}
+
+fn contents_short(cur: &[Option<Arc<str>>]) -> String {
+    let parts: Vec<String> = cur
+        .iter()
+        .enumerate()
+        .map(|(i, c)| match c {
+            None => format!("f{i}=<absent>"),
+            Some(t) => {
+                let label = TEXTS.iter().find(|(_, x)| *x == &**t).map(|(l, _)| l.to_string());
+                format!("f{i}={}", label.unwrap_or_else(|| format!("{:?}", clip(t, 30))))
+            }
+        })
+        .collect();
+    format!("{{{}}}", parts.join(", "))
+}
+
+pub fn check_case(case: &Value) -> Vec<Violation> {
+    match case["kind"].as_str() {
+        Some("history") => match Case::from_json(case) {
+            Some(c) => violations_of(&c),
+            None => Vec::new(),
+        },
+        Some("fresh") => {
+            let nfiles = case["nfiles"].as_u64().unwrap_or(0) as usize;
+            let ops: Vec<Op> = case["contents"]
+                .as_array()
+                .cloned()
+                .unwrap_or_default()
+                .iter()
+                .enumerate()
+                .filter_map(|(i, t)| t.as_str().map(|t| Op::Set { file: i, label: "?".into(), text: Arc::from(t) }))
+                .collect();
+            // loading in ascending order IS a history; violations_of compares both fresh orders
+            violations_of(&Case { nfiles, ops, first: None })
+                .into_iter()
+                .filter(|v| v.signature.starts_with("C13/fresh-order/") || v.signature.starts_with("C13/panic/"))
+                .collect()
+        }
+        _ => Vec::new(),
+    }
+}
+
+// ------------------------------------------------------------------------------------------------
+// explorer
+// ------------------------------------------------------------------------------------------------
+
+#[derive(Default)]
+struct Agg {
+    histories: u64,
+    cnt: Counters,
+    suspicious: Vec<Case>,
+    final_states: HashSet<usize>,
+    outcome_hashes: HashSet<u64>,
+}
+
+/// Fast check of one history against the tabulated expectations. Returns true if the slow path
+/// must look at it.
+fn fast_check(menu: &Menu, table: &[Expect], case: &Case, st: &[Option<usize>], agg: &mut Agg) {
+    agg.histories += 1;
+    let code = state_code(st, menu.texts.len());
+    agg.final_states.insert(code);
+    let run = match run_case(case, &menu.budgets) {
+        Ok(r) => r,
+        Err(_) => {
+            agg.suspicious.push(case.clone());
+            return;
+        }
+    };
+    agg.cnt.ops += run.cnt.ops;
+    agg.cnt.reuse_repeat += run.cnt.reuse_repeat;
+    agg.cnt.reuse_across_edit += run.cnt.reuse_across_edit;
+    let exp = &table[code];
+    let mut bad = !run.repeat_diffs.is_empty();
+    let mut whole: u64 = 0;
+    for file in 0..menu.nfiles {
+        for k in 0..5 {
+            let h = hash_lines(&run.obs.lines[file][k]);
+            whole = whole.rotate_left(7) ^ h;
+            if h != exp.asc[file][k] && h != exp.desc[file][k] {
+                bad = true;
+            }
+        }
+        if hash_lines(&run.obs.diag_order[file]) != exp.diag_order_asc[file] {
+            agg.cnt.diag_order_diffs += 1;
+        }
+    }
+    if let (Some(fl), Some((k, f))) = (&run.first_lines, case.first) {
+        let h = hash_lines(fl);
+        if (h != exp.asc[f][k] && h != exp.desc[f][k]) || fl != &run.obs.lines[f][k] {
+            bad = true;
+        }
+    }
+    agg.outcome_hashes.insert(whole);
+    if bad && agg.suspicious.len() < 64 {
+        agg.suspicious.push(case.clone());
+    }
+}
+
+fn apply_model(st: &mut [Option<usize>], op: &Op, menu: &Menu) {
+    match op {
+        Op::Set { file, label, .. } => {
+            st[*file] = menu.texts.iter().position(|(l, _)| l == label);
+        }
+        Op::Remove { file } => st[*file] = None,
+        _ => {}
+    }
+}
+
+/// memo option: 0 = none, 1 = all, 2+i = singles[i]
+fn memo_ops(m: usize, singles: &[(usize, usize)]) -> Vec<Op> {
+    match m {
+        0 => vec![],
+        1 => vec![Op::All],
+        i => {
+            let (k, f) = singles[i - 2];
+            vec![Op::Query { kind: k, file: f }]
+        }
+    }
+}
+
+#[derive(Clone, Copy, PartialEq, Eq, Debug)]
+enum Family {
+    /// every memo choice in every gap x every final option (full product)
+    Full,
+    /// no query before the last edit; final: sweep only
+    PlainSweep,
+    /// no query before the last edit; final: every single query first, then the sweep
+    PlainFirst,
+    /// queries only in the gap before the LAST edit (all / every single); final: sweep only
+    LastGap,
+    /// all queries in the gap before the last edit, nothing else; final: sweep only
+    LastGapAll,
+    /// the same memo choice (all / one single query) in EVERY gap, including before the first
+    /// edit; final: sweep only, or the same single query first
+    Uniform,
+    /// like Uniform, final: every other single query first
+    UniformX,
+}
+
+/// Enumerates the memo vectors of a family for `d` edits: (gap choices g[0..d] where g[i] precedes
+/// edit i: 0 = none, 1 = all, 2+i = singles[i]; final option: 0 = sweep only, 1+i = singles[i]
+/// first). The families of one depth are pairwise disjoint (Full is only used alone).
+fn family_vectors(fam: Family, d: usize, ns: usize) -> Vec<(Vec<usize>, usize)> {
+    let mut out = Vec::new();
+    let opts = ns + 2;
+    match fam {
+        Family::Full => {
+            for code in 0..opts.pow(d as u32) {
+                let mut g = Vec::with_capacity(d);
+                let mut c = code;
+                for _ in 0..d {
+                    g.push(c % opts);
+                    c /= opts;
+                }
+                g.reverse();
+                for fin in 0..=ns {
+                    out.push((g.clone(), fin));
+                }
+            }
+        }
+        Family::PlainSweep => out.push((vec![0; d], 0)),
+        Family::PlainFirst => {
+            for fin in 1..=ns {
+                out.push((vec![0; d], fin));
+            }
+        }
+        Family::LastGap => {
+            for m in 1..opts {
+                let mut g = vec![0; d];
+                g[d - 1] = m;
+                out.push((g, 0));
+            }
+        }
+        Family::LastGapAll => {
+            let mut g = vec![0; d];
+            g[d - 1] = 1;
+            out.push((g, 0));
+        }
+        Family::Uniform => {
+            for m in 1..opts {
+                out.push((vec![m; d], 0));
+                if m >= 2 {
+                    out.push((vec![m; d], m - 1));
+                }
+            }
+        }
+        Family::UniformX => {
+            for m in 1..opts {
+                for fin in 1..=ns {
+                    if m >= 2 && fin == m - 1 {
+                        continue; // in Uniform
+                    }
+                    out.push((vec![m; d], fin));
+                }
+            }
+        }
+    }
+    out
+}
+
+pub fn run(ctx: &Ctx) -> EngineResult {
+    quiet_panics();
+    let mut rep = Report::new("model_checking");
+    let t0 = Instant::now();
+    let deadline = t0 + Duration::from_secs(ctx.tier.pick(36, 840));
+    let nfiles = ctx.tier.pick(3usize, 4usize);
+    let nv = ctx.tier.pick(TEXTS.len(), TEXTS.len());
+    let max_depth = ctx.tier.pick(3usize, 4usize);
+    let stack = 16 << 20;
+    let menu = Menu::new(nfiles, nv).map_err(Machinery)?;
+    let all_edits = menu.edits();
+    let singles = menu.singles();
+    let ns = singles.len();
+
+    // ---- expected answers for every contents state, both load orders ----
+    let nstates = (nv + 1).pow(nfiles as u32);
+    let codes: Vec<usize> = (0..nstates).collect();
+    let res = par_map(&codes, ctx.threads, stack, None, |_, &code| {
+        let st = state_decode(code, nfiles, nv);
+        let cur = menu.contents(&st);
+        let asc = fresh_obs(nfiles, &cur, &menu.budgets, false);
+        let desc = fresh_obs(nfiles, &cur, &menu.budgets, true);
+        // the same texts alone (cross-file effect counter)
+        let mut cross = false;
+        if let Ok(a) = &asc {
+            for f in 0..nfiles {
+                if cur[f].is_some() {
+                    let mut solo = vec![None; nfiles];
+                    solo[f] = cur[f].clone();
+                    if let Ok(s) = fresh_obs(nfiles, &solo, &menu.budgets, false) {
+                        if s.lines[f][K_ANALYZE] != a.lines[f][K_ANALYZE] || s.lines[f][K_TYPEOF] != a.lines[f][K_TYPEOF] {
+                            cross = true;
+                        }
+                    }
+                }
+            }
+        }
+        (asc, desc, cross)
+    });
+    let mut table: Vec<Expect> = Vec::with_capacity(nstates);
+    let mut cross_states = 0u64;
+    let mut fresh_viol_cases: Vec<Case> = Vec::new();
+    let mut distinct_expected: HashSet<u64> = HashSet::new();
+    for (code, r) in res.into_iter().enumerate() {
+        let Some((asc, desc, cross)) = r else { return machinery("expected-answer table incomplete") };
+        let st = state_decode(code, nfiles, nv);
+        let load_case = || Case {
+            nfiles,
+            ops: st
+                .iter()
+                .enumerate()
+                .filter_map(|(f, v)| v.map(|i| Op::Set { file: f, label: menu.texts[i].0.clone(), text: menu.texts[i].1.clone() }))
+                .collect(),
+            first: None,
+        };
+        match (asc, desc) {
+            (Ok(a), Ok(d)) => {
+                let ha = hashes(&a);
+                let hd = hashes(&d);
+                if ha != hd {
+                    fresh_viol_cases.push(load_case());
+                }
+                for f in 0..nfiles {
+                    distinct_expected.insert(ha[f][K_ANALYZE]);
+                }
+                if cross {
+                    cross_states += 1;
+                }
+                table.push(Expect {
+                    asc: ha,
+                    desc: hd,
+                    diag_order_asc: a.diag_order.iter().map(|l| hash_lines(l)).collect(),
+                });
+            }
+            _ => {
+                // a panic while loading/querying a fresh database: the slow path reports it
+                fresh_viol_cases.push(load_case());
+                table.push(Expect { asc: vec![[0; 5]; nfiles], desc: vec![[1; 5]; nfiles], diag_order_asc: vec![0; nfiles] });
+            }
+        }
+    }
+    for c in fresh_viol_cases.iter().take(50) {
+        rep.violations_from(violations_of(c));
+    }
+    if cross_states == 0 || distinct_expected.len() < 8 {
+        if !rep.violations.is_empty() {
+            // the brand-new databases themselves fail (panic / load-order dependence): that is the
+            // finding; the history exploration would only repeat it
+            rep.cap("history exploration skipped: brand-new databases already violate the property (see violations)");
+            rep.set("exhaustive", false);
+            rep.set("states", nstates as u64);
+            rep.set("transitions", 0u64);
+            rep.set("traces_validated_against_impl", 0u64);
+            return Ok(rep);
+        }
+        return machinery(format!(
+            "alphabet vacuous: {cross_states} contents states in which one file's analysis depends on another file, {} distinct analyses",
+            distinct_expected.len()
+        ));
+    }
+    rep.set("contents_states", nstates as u64);
+    rep.set("contents_states_with_cross_file_effect", cross_states);
+    rep.set("distinct_fresh_analyses", distinct_expected.len() as u64);
+    eprintln!("[C13] expected table: {nstates} states, {cross_states} with cross-file effect, {:.1}s", ctx.elapsed());
+
+    // ---- stages, simplest first (edit-only histories by depth, then the families with queries
+    // between edits by depth): (edits, family, number of text variants used) ----
+    let small = 5usize; // A P C B 0
+    let stages: Vec<(usize, Family, usize)> = match ctx.tier {
+        Tier::Quick => vec![
+            (1, Family::Full, nv),
+            (2, Family::PlainSweep, nv),
+            (3, Family::PlainSweep, small),
+            (2, Family::PlainFirst, nv),
+            (2, Family::LastGap, nv),
+            (2, Family::Uniform, nv),
+            (3, Family::LastGap, small),
+        ],
+        Tier::Thorough => vec![
+            (1, Family::Full, nv),
+            (2, Family::PlainSweep, nv),
+            (3, Family::PlainSweep, nv),
+            (4, Family::PlainSweep, small),
+            (2, Family::PlainFirst, nv),
+            (2, Family::LastGap, nv),
+            (2, Family::Uniform, nv),
+            (3, Family::LastGap, nv),
+            (4, Family::LastGapAll, small),
+            (2, Family::UniformX, nv),
+            (3, Family::Uniform, nv),
+            (3, Family::PlainFirst, nv),
+            (4, Family::PlainSweep, nv),
+        ],
+    };
+
+    let mut total = Agg::default();
+    let mut exhaustive = true;
+    let mut completed: Vec<String> = Vec::new();
+    let mut depth_completed: usize = 0;
+    let mut slow_checked = 0u64;
+    let mut flagged = 0u64;
+    let mut unconfirmed = 0u64;
+    let mut seen_stage: HashSet<(usize, String)> = HashSet::new();
+    for (d, fam, snv) in stages {
+        if !exhaustive {
+            break;
+        }
+        let vectors = family_vectors(fam, d, ns);
+        // edit alphabet of this stage (sets restricted to the first `snv` texts)
+        let edits: Vec<Op> = all_edits
+            .iter()
+            .filter(|e| match e {
+                Op::Set { label, .. } => menu.texts.iter().position(|(l, _)| l == label).is_some_and(|i| i < snv),
+                _ => true,
+            })
+            .cloned()
+            .collect();
+        let ne = edits.len();
+        // a later stage with more texts repeats the histories of the same family over fewer texts;
+        // those are skipped (a sequence is skipped iff all its sets use the small menu)
+        let skip_small: Option<usize> = if seen_stage.contains(&(d, format!("{fam:?}"))) { Some(small) } else { None };
+        seen_stage.insert((d, format!("{fam:?}")));
+        // work items: (edit sequence, chunk of memo vectors), in simplest-first order
+        let nseq = ne.pow(d as u32);
+        let chunk = 16usize;
+        let nchunks = vectors.len().div_ceil(chunk);
+        let nitems = nseq * nchunks;
+        let items: Vec<usize> = (0..nitems).collect();
+        let stage_t = Instant::now();
+        let res = par_map(&items, ctx.threads, stack, Some(deadline), |_, &item| {
+            let mut agg = Agg::default();
+            let scode = item / nchunks;
+            let ch = item % nchunks;
+            let mut seq: Vec<usize> = Vec::with_capacity(d);
+            let mut c = scode;
+            for _ in 0..d {
+                seq.push(c % ne);
+                c /= ne;
+            }
+            seq.reverse();
+            let mut st: Vec<Option<usize>> = vec![None; nfiles];
+            for &e in &seq {
+                apply_model(&mut st, &edits[e], &menu);
+            }
+            if let Some(sm) = skip_small {
+                let all_small = seq.iter().all(|&e| match &edits[e] {
+                    Op::Set { label, .. } => menu.texts.iter().position(|(l, _)| l == label).is_some_and(|i| i < sm),
+                    _ => true,
+                });
+                if all_small {
+                    return agg;
+                }
+            }
+            for (g, fin) in vectors.iter().skip(ch * chunk).take(chunk) {
+                let mut ops = Vec::with_capacity(2 * d);
+                for (i, &e) in seq.iter().enumerate() {
+                    ops.extend(memo_ops(g[i], &singles));
+                    ops.push(edits[e].clone());
+                }
+                let case = Case { nfiles, ops, first: if *fin == 0 { None } else { Some(singles[*fin - 1]) } };
+                fast_check(&menu, &table, &case, &st, &mut agg);
+            }
+            agg
+        });
+        let mut done = 0usize;
+        for r in res {
+            match r {
+                Some(a) => {
+                    done += 1;
+                    total.histories += a.histories;
+                    total.cnt.ops += a.cnt.ops;
+                    total.cnt.reuse_repeat += a.cnt.reuse_repeat;
+                    total.cnt.reuse_across_edit += a.cnt.reuse_across_edit;
+                    total.cnt.diag_order_diffs += a.cnt.diag_order_diffs;
+                    total.final_states.extend(a.final_states);
+                    total.outcome_hashes.extend(a.outcome_hashes);
+                    flagged += a.suspicious.len() as u64;
+                    for c in a.suspicious {
+                        if slow_checked < 400 {
+                            slow_checked += 1;
+                            let v = violations_of(&c);
+                            if v.is_empty() {
+                                unconfirmed += 1;
+                            }
+                            rep.violations_from(v);
+                        }
+                    }
+                }
+                None => exhaustive = false,
+            }
+        }
+        let label = format!("depth{d}:{fam:?}:{snv}texts");
+        eprintln!(
+            "[C13] stage {label}: {done}/{nitems} items ({nseq} edit sequences x {} memo vectors), total histories {}, {:.1}s (stage {:.1}s)",
+            vectors.len(),
+            total.histories,
+            ctx.elapsed(),
+            stage_t.elapsed().as_secs_f64()
+        );
+        if exhaustive {
+            completed.push(label);
+            if matches!(fam, Family::PlainSweep | Family::Full) && snv == nv {
+                depth_completed = depth_completed.max(d);
+            }
+        } else {
+            rep.cap(format!("wall cap reached in stage {label} after {done} of {nitems} work items ({nseq} edit sequences x {} memo vectors)", vectors.len()));
+        }
+    }
+    if unconfirmed > 0 {
+        return machinery(format!("{unconfirmed} histories flagged by the hashed comparison were not confirmed by the detailed comparison"));
+    }
+    if total.histories == 0 || total.outcome_hashes.len() < 8 {
+        return machinery("exploration vacuous: fewer than 8 distinct final observations");
+    }
+    if total.cnt.reuse_across_edit == 0 {
+        return machinery("no memoised value was ever returned again after an edit: the memo dimension is vacuous");
+    }
+
+    rep.set("states", total.histories);
+    rep.set("transitions", total.cnt.ops);
+    rep.set("traces_validated_against_impl", total.histories);
+    rep.set("files", nfiles as u64);
+    rep.set("text_variants", nv as u64);
+    rep.set("edit_alphabet", all_edits.len() as u64);
+    rep.set("single_query_alphabet", ns as u64);
+    rep.set("max_depth_edits", max_depth as u64);
+    rep.set("stages_completed", json!(completed));
+    rep.set("depth_completed_all_texts_sweep_only", depth_completed as u64);
+    rep.set("distinct_final_contents_states", total.final_states.len() as u64);
+    rep.set("distinct_final_observations", total.outcome_hashes.len() as u64);
+    rep.set("memo_reused_by_repeated_query", total.cnt.reuse_repeat);
+    rep.set("memo_reused_across_an_edit", total.cnt.reuse_across_edit);
+    rep.set("diagnostic_order_differences_not_demanded", total.cnt.diag_order_diffs);
+    rep.set("histories_flagged_by_hash_comparison", flagged);
+    rep.set("histories_sent_to_detailed_check", slow_checked);
+    rep.set("exhaustive", exhaustive);
+    // samples
+    let edits = &all_edits;
+    let ne = edits.len();
+    let sample_seq = [0usize, ne / 2, ne - 1];
+    let mut ops = Vec::new();
+    for (i, e) in sample_seq.iter().enumerate() {
+        ops.extend(memo_ops(if i == 0 { 0 } else { 2 + i }, &singles));
+        ops.push(edits[*e % ne].clone());
+    }
+    let sample = Case { nfiles, ops, first: Some(singles[0]) };
+    rep.sample(json!({"history": sample.short(), "case": sample.to_json()}));
+    rep.sample(json!({"texts": TEXTS[..nv].iter().map(|(l, t)| json!({"label": l, "text": t})).collect::<Vec<_>>()}));
+    rep.assume("state = history (no merging): the memo tables under test are not observable");
+    rep.assume("memo dimension per gap restricted to {none, one single (kind,file) query, all queries}; the stage list (stages_completed) names the enumerated combinations: Full = full product; PlainSweep/PlainFirst = no query before the last edit; LastGap = queries only before the last edit; Uniform/UniformX = the same choice in every gap");
+    rep.assume("diagnostics compared as a multiset; load order of the fresh database: ascending FileId, and descending must agree");
+    Ok(rep)
 }
 
 pub fn workers() -> Vec<(&'static str, WorkerFn)> {
